@@ -24,6 +24,7 @@ class Family:
         self.refused = []    # (prog, [diag])
         self.ws = None
         self.build_s = 0.0
+        self.release = False
 
     def bins(self):
         out = {}
@@ -35,7 +36,7 @@ class Family:
         rec = None
         if record:
             rec = open(os.path.join(self.ctx.workdir, f"log_{b}.jsonl"), "w")
-        return runner.Runner(self.ws.bin_path(b), record=rec)
+        return runner.Runner(self.ws.bin_path(b, release=self.release), record=rec)
 
     def each_bin(self, fn, threads=16):
         """fn(bin_name, progs, runner) in a thread pool; exceptions propagate."""
@@ -59,8 +60,9 @@ def _render(prog):
     return cls(prog, **prog.get("_render_kw", {})).source()
 
 
-def build_family(ctx, fam, progs_by_bin, sv_by_bin=None):
-    """progs_by_bin: {bin: [prog]}.  Emits, builds with exclusion rounds, returns Family."""
+def build_family(ctx, fam, progs_by_bin, sv_by_bin=None, release=False):
+    """progs_by_bin: {bin: [prog]}.  Emits, builds with exclusion rounds, returns Family.
+    release: the release profile (no debug assertions, no overflow checks), the configuration contracts are deployed in."""
     ws = corpus.Workspace(ctx.label)
     # keep bins of other families already on disk: a workspace is shared by all checks
     reg_path = os.path.join(ws.root, "families.json")
@@ -70,6 +72,7 @@ def build_family(ctx, fam, progs_by_bin, sv_by_bin=None):
         reg = {}
     f = Family(ctx, fam)
     f.ws = ws
+    f.release = release
     sources = {}
     for b, progs in progs_by_bin.items():
         for p in progs:
@@ -83,7 +86,7 @@ def build_family(ctx, fam, progs_by_bin, sv_by_bin=None):
         reg[fam] = {"seed": ctx.seed, "bins": {b: sorted(v) for b, v in bins.items()}}
         _emit_bins(ws, bins, (sv_by_bin or {}))
         corpus.write_if_changed(reg_path, json.dumps(reg, indent=1, sort_keys=True))
-        ok, diags, stderr, dt = _build(ws, sorted(bins))
+        ok, diags, stderr, dt = _build(ws, sorted(bins), release=release)
         f.build_s += dt
         if ok:
             break
@@ -141,7 +144,8 @@ def _emit_bins(ws, bins, sv_by_bin):
                                  if os.path.exists(os.path.join(bdir, b, "Cargo.toml")))
     corpus.write_if_changed(os.path.join(ws.root, "Cargo.toml"),
                             "[workspace]\nresolver = \"2\"\nmembers = [" + ", ".join(f'"{m}"' for m in members) + "]\n\n"
-                            "[profile.dev]\ndebug = 0\nincremental = false\nopt-level = 0\n\n" + corpus.workspace_dependencies("svx"))
+                            "[profile.dev]\ndebug = 0\nincremental = false\nopt-level = 0\n\n"
+                            "[profile.release]\ndebug = 0\nincremental = false\nopt-level = 0\n\n" + corpus.workspace_dependencies("svx"))
     lock = os.path.join(ws.root, "Cargo.lock")
     if not os.path.exists(lock):
         import shutil
@@ -150,7 +154,7 @@ def _emit_bins(ws, bins, sv_by_bin):
     corpus.write_if_changed(os.path.join(ws.root, ".cargo", "config.toml"), "[net]\noffline = true\n")
 
 
-def _build(ws, pkgs, timeout=7200):
+def _build(ws, pkgs, timeout=7200, release=False):
     import fcntl
     os.makedirs(os.path.dirname(ws.target), exist_ok=True)
     lockf = open(os.path.join(corpus.WORK, ws.label, ".lock"), "w")
@@ -158,7 +162,7 @@ def _build(ws, pkgs, timeout=7200):
     try:
         t0 = time.time()
         # a stale binary must never be mistaken for a fresh one
-        cmd = ["cargo", "build", "--offline", "--message-format=json", "--keep-going", "-q"]
+        cmd = ["cargo", "build", "--offline", "--message-format=json", "--keep-going", "-q"] + (["--release"] if release else [])
         for p in pkgs:
             cmd += ["-p", p]
         p = subprocess.run(cmd, cwd=ws.root, env=dict(corpus.CARGO_ENV, CARGO_TARGET_DIR=ws.target),
@@ -189,7 +193,7 @@ def _build(ws, pkgs, timeout=7200):
                           "rendered": (msg.get("rendered") or "")[:1500], "target": tname})
         for t in failed_targets:
             try:
-                os.remove(ws.bin_path(t))
+                os.remove(ws.bin_path(t, release=release))
             except (FileNotFoundError, TypeError):
                 pass
         return p.returncode == 0, diags, p.stderr[-3000:], time.time() - t0
@@ -223,9 +227,22 @@ def get(ctx, fam):
         return _CACHE[key]
     if fam == "general":
         f = build_family(ctx, fam, general_programs(ctx))
+    elif fam == "release":
+        # a slice of the general corpus, renamed, in the release profile
+        sl = {}
+        for b, progs in sorted(general_programs(ctx).items())[:ctx.pick(2, 6)]:
+            import copy
+            qs = []
+            for p in progs[:2]:
+                q = copy.deepcopy(p)
+                q["types"] = p["types"]
+                q["name"] = "rel_" + p["name"]
+                qs.append(q)
+            sl["rl" + b[1:]] = qs
+        f = build_family(ctx, fam, sl, release=True)
     else:
         from . import families_extra
         f = families_extra.get(ctx, fam)
     _CACHE[key] = f
     return f
-ALL_FAMILIES = ["general", "replies", "epcfg", "attrs", "generic", "alias", "names", "shadow", "wide"]
+ALL_FAMILIES = ["general", "replies", "epcfg", "attrs", "generic", "alias", "names", "shadow", "wide", "release"]
